@@ -1,6 +1,7 @@
 import ComposeVerif.Lemmas.ShortDoc
 import ComposeVerif.Props.C03
 import ComposeVerif.Lemmas.ShortIdem
+import ComposeVerif.Lemmas.ShortIdemAny
 /-!
 # C03 — from the attribute to the whole document (round 5)
 
@@ -193,6 +194,36 @@ theorem canonical_build_extends_short_eq_long (ign : Bool) (top1 top2 svcs1 svcs
   · rw [seg_build, transformBuild_short_eq_long, transformBuild_long_id]
   · rw [seg_extends, transformExtends_short_eq_long, transformExtends_long_id]
 
+/-- the walk from the root to a top-level resource entry -/
+theorem resource_path (a : String) (ha : IsResource a) :
+    TPath.nextK TPath.root a = [a] ∧ recursesOnMap (TPath.firstMatch CV.Gen.transformers [a]) = true
+    ∧ ∀ r, TPath.firstMatch CV.Gen.transformers [a, r] = some "transformMaybeExternal" := by
+  rcases ha with h | h | h | h <;> subst h <;> refine ⟨by decide, by decide, fun r => ?_⟩ <;>
+    simp [TPath.firstMatch, CV.Gen.transformers, TPath.pmatch]
+
+/-- at a resource entry the children are left as they are and `externalFix` runs on the mapping -/
+theorem transform_resource (ign : Bool) (a r : String) (ha : IsResource a) (m : Val.KVs) :
+    transform ign [a, r] (.map m) = bindOut (externalFix m) (fun r' => .ok (.map r')) := by
+  have hp := (resource_path a ha).2.2 r
+  simp [transform, hp, recursesOnMap, resource_kvs_idA ign a r ha m, bindOut, postMap]
+
+/-- `external: {name: N}` ≡ `external: true, name: N` for volumes, networks, secrets and configs, whole documents -/
+theorem canonical_external_short_eq_long (ign : Bool) (top1 top2 rs1 rs2 : Val.KVs) (a r : String) (ha : IsResource a) (N : Val) :
+    canonical ign (.map (top1 ++ (a, .map (rs1 ++ (r, .map [("external", .map [("name", N)])]) :: rs2)) :: top2))
+      = canonical ign (.map (top1 ++ (a, .map (rs1 ++ (r, .map [("external", .bool true), ("name", N)]) :: rs2)) :: top2)) := by
+  obtain ⟨h1, h2, _⟩ := resource_path a ha
+  unfold canonical
+  apply transform_map_congr _ _ _ _ root_recurses
+  apply transformKVs_congr
+  rw [h1]
+  apply transform_map_congr _ _ _ _ h2
+  apply transformKVs_congr
+  have hne : ([a] : TPath) ≠ TPath.root := by
+    rcases ha with h | h | h | h <;> subst h <;> decide
+  rw [TPath.nextK_of_ne_root _ _ hne]
+  show transform ign [a, seg r] _ = transform ign [a, seg r] _
+  obtain ⟨e1, e2⟩ := transformMaybeExternal_short_eq_long N
+  rw [transform_resource ign a _ ha, transform_resource ign a _ ha, e1, e2]
 /-- non-vacuity: a document with two services, a top-level section before and after, attributes around `depends_on` -/
 example :
     canonical false (docWith [("name", .str "p")] [("volumes", .map [("v", .null)])] [("db", .map [("image", .str "i")])] []
